@@ -30,9 +30,10 @@ def main(argv=None) -> int:
     rep = Reporter(pid, a.tier, a.seed, level)
     try:
         if a.replay:
+            # a replay re-runs one recorded case and prints what happens; it never rewrites the evidence
             mod.replay(rep, a.replay)
-        else:
-            mod.run(rep, a.tier, a.seed)
+            return 1 if rep.violations else 0
+        mod.run(rep, a.tier, a.seed)
         return rep.finish()
     except (MachineryFailure, TLCMachineryError) as ex:
         print(f"MACHINERY-FAILURE property={pid}: {ex}", file=sys.stderr, flush=True)
